@@ -16,6 +16,9 @@ def units(tier):
     us += [Unit(D.RecalcStep)] + [Unit(D.RecalcWhole, {'n': 3, 'index': i}) for i in (0, 1, 2)]
     # and on a removed link being exactly the record named (links with equal names in different directories, data moving afterwards)
     us += [Unit(F.Mastered, {'script': 'joliet-same-name-links'}), Unit(F.Reopened, {'script': 'joliet-same-name-links'})]
+    # histories that go on after the image was written and opened again (every few operations)
+    us += [Unit(F.Mastered, {'script': s}) for s in ['rr-edit-after-reopen'] + F.random_reopen_names(tier)]
+    us += [Unit(F.MasteredUDF, {'script': s}) for s in F.random_udf_reopen_names(tier)]
     return us
 
 
